@@ -20,9 +20,11 @@ REGISTRY = {
             ("harness.c_iteration", "check_exactly_once_interfaces")],
     "C03": [("harness.c_iteration", "check_order")],
     "C01": [("harness.c_writers", "check_roundtrip")],
-    "C10": [("harness.c_writers", "check_shard_sizes")],
+    "C10": [("harness.c_writers", "check_shard_sizes"),
+            ("harness.c_writers", "check_glue")],
     "C11": [("harness.c_writers", "check_custom_metadata")],
-    "C18": [("harness.c_writers", "check_bad_writes")],
+    "C18": [("harness.c_writers", "check_bad_writes"),
+            ("harness.c_writers", "check_glue")],
     "C04": [("harness.c_metadata", "check_histories")],
     "C05": [("harness.c_metadata", "check_integrity"),
             ("harness.c_metadata", "check_histories")],
